@@ -276,6 +276,27 @@ fn bv_with_supports(bits: &[bool], subset: usize) -> BitVector {
 
 // Structures whose serialized parts are (exact multiples of) a mebibyte and more: implementations that read or write in
 // blocks have their boundaries there. One vector of 40 Mbit with rank support (its samples alone exceed 1 MiB).
+// A plain bitvector of `words` random words (density 1/8) with rank support, 3000 positions (a third of them above 2^24)
+// and the ranks there computed from the words themselves.
+pub fn forty_mbit(rng: &mut Rng, words: usize) -> (BitVector, Vec<usize>, Vec<usize>, u32) {
+    let mut raw = simple_sds::raw_vector::RawVector::with_capacity(words * 64);
+    let mut prefix: Vec<u32> = Vec::with_capacity(words + 1); // ones before each word (the oracle for rank)
+    let mut ones = 0u32;
+    for _ in 0..words {
+        let w = rng.next_u64() & rng.next_u64() & rng.next_u64();
+        prefix.push(ones);
+        ones += w.count_ones();
+        unsafe { simple_sds::raw_vector::PushRaw::push_int(&mut raw, w, 64); }
+    }
+    prefix.push(ones);
+    let words_copy: Vec<u64> = { let r: &[u64] = raw.as_ref(); r.to_vec() };
+    let mut bv = BitVector::from(raw);
+    bv.enable_rank();
+    let positions: Vec<usize> = (0..3000).map(|i| if i % 3 == 0 { (1usize << 24) + rng.below(1 << 24) } else { rng.below(words * 64 + 1) }).collect();
+    let want: Vec<usize> = positions.iter().map(|&p| { let (w, o) = (p / 64, p % 64); prefix[w] as usize + if o > 0 { (words_copy[w] & ((1u64 << o) - 1)).count_ones() as usize } else { 0 } }).collect();
+    (bv, positions, want, ones)
+}
+
 fn mebibytes(ctx: &mut Ctx) {
     if cfg!(miri) || !ctx.mine(0) { return; }
     for (k, items) in [131_072usize, 131_071, 131_073, 262_144, 400_000].iter().enumerate() {
@@ -291,21 +312,7 @@ fn mebibytes(ctx: &mut Ctx) {
     if ctx.begin_case() {
         let mut rng = ctx.rng(0xC6_9000);
         let words = 625_000usize; // 40 Mbit
-        let mut raw = simple_sds::raw_vector::RawVector::with_capacity(words * 64);
-        let mut prefix: Vec<u32> = Vec::with_capacity(words + 1); // ones before each word (the oracle for rank)
-        let mut ones = 0u32;
-        for _ in 0..words {
-            let w = rng.next_u64() & rng.next_u64() & rng.next_u64();
-            prefix.push(ones);
-            ones += w.count_ones();
-            unsafe { simple_sds::raw_vector::PushRaw::push_int(&mut raw, w, 64); }
-        }
-        prefix.push(ones);
-        let words_copy: Vec<u64> = { let r: &[u64] = raw.as_ref(); r.to_vec() };
-        let mut bv = BitVector::from(raw);
-        bv.enable_rank();
-        let positions: Vec<usize> = (0..3000).map(|i| if i % 3 == 0 { (1usize << 24) + rng.below(1 << 24) } else { rng.below(words * 64 + 1) }).collect();
-        let want: Vec<usize> = positions.iter().map(|&p| { let (w, o) = (p / 64, p % 64); prefix[w] as usize + if o > 0 { (words_copy[w] & ((1u64 << o) - 1)).count_ones() as usize } else { 0 } }).collect();
+        let (bv, positions, want, ones) = forty_mbit(&mut rng, words);
         let positions2 = positions.clone();
         let digest = move |b: &BitVector| -> Result<u64, String> { guard(|| hash64(&positions2.iter().map(|&p| b.rank(p) as u64).collect::<Vec<u64>>())) };
         ctx.expect_eq("bit_vector_40mbit.rank", || "rank at 3000 positions of a 40 Mbit bitvector (before serialization)".to_string(), &guard(|| positions.iter().map(|&p| bv.rank(p)).collect::<Vec<usize>>()), &want);
